@@ -31,6 +31,10 @@ pub fn def() -> PropDef {
 enum Inner {
     Str,
     BoxStr,
+    /// user type with `From<&str>` only (no `From<String>`), Display forwarding to the text
+    Ofs,
+    /// the enum's own type parameter `S` (bounds in a where clause), instantiated with &'static str
+    GenS,
     SStr,
     I32,
     F64,
@@ -41,6 +45,8 @@ fn inner_ty(i: Inner) -> FieldTy {
     match i {
         Inner::Str => FieldTy::Str,
         Inner::BoxStr => FieldTy::Raw("Box<str>".into(), "\"\"".into()),
+        Inner::Ofs => FieldTy::Raw("Ofs".into(), "\"\"".into()),
+        Inner::GenS => FieldTy::Raw("S".into(), "\"\"".into()),
         Inner::SStr => FieldTy::SStr,
         Inner::I32 => FieldTy::I32,
         Inner::F64 => FieldTy::Raw("f64".into(), "0.0".into()),
@@ -56,6 +62,8 @@ fn inner_values(t: &FieldTy) -> Vec<&'static str> {
         FieldTy::Raw(n, _) if n == "f64" => vec!["1.5f64", "-0.25f64"],
         FieldTy::Raw(n, _) if n == "Nested" => vec!["Nested::Violet", "Nested::Fuchsia"],
         FieldTy::Raw(n, _) if n == "Box<str>" => vec!["Box::<str>::from(\"\")", "Box::<str>::from(\"é x\")"],
+        FieldTy::Raw(n, _) if n == "Ofs" => vec!["Ofs::from(\"\")", "Ofs::from(\"é x\")"],
+        FieldTy::Raw(n, _) if n == "S" => vec!["\"\"", "\"é x\"", "\"Hello\""],
         _ => vec![],
     }
 }
@@ -64,9 +72,12 @@ fn alphabet() -> Vec<Dev> {
     let mut d: Vec<Dev> = Vec::new();
     for (pn, pos) in [("first", 0usize), ("middle", 1), ("last", 2)] {
         for named in [false, true] {
-            for inner in [Inner::Str, Inner::BoxStr] {
+            for inner in [Inner::Str, Inner::BoxStr, Inner::Ofs] {
                 for tos in [None, Some("Dflt")] {
-                    let label = format!("default variant {} ({}, {}{})", pn, if named { "named" } else { "tuple" }, if inner == Inner::Str { "String" } else { "Box<str>" }, if tos.is_some() { ", to_string" } else { "" });
+                    if inner == Inner::Ofs && tos.is_some() {
+                        continue;
+                    }
+                    let label = format!("default variant {} ({}, {}{})", pn, if named { "named" } else { "tuple" }, match inner { Inner::Str => "String", Inner::BoxStr => "Box<str>", _ => "user type with From<&str> only" }, if tos.is_some() { ", to_string" } else { "" });
                     d.push(dev(label, &["default"], move |s| {
                         let mut v = VariantSpec::unit("Dd");
                         v.default = true;
@@ -100,6 +111,18 @@ fn alphabet() -> Vec<Dev> {
                 }
             }
         }
+    }
+    // the transparent field is the enum's own type parameter, bounded only in a where clause
+    for named in [false, true] {
+        d.push(dev(format!("transparent variant last ({}, generic S where S: AsRef<str> + Display + Default)", if named { "named" } else { "tuple" }), &["transparent", "gen"], move |s| {
+            let mut v = VariantSpec::unit("Tt");
+            v.transparent = true;
+            v.kind = if named { Kind::Named(vec![NamedField { name: "f".into(), ty: inner_ty(Inner::GenS), default_with: false }]) } else { Kind::Tuple(vec![inner_ty(Inner::GenS)]) };
+            s.variants.push(v);
+            s.generics = vec![Generic::Type { name: "S".into(), bounds: "".into() }];
+            s.where_clause = Some("S: AsRef<str> + ::core::fmt::Display + Default".into());
+            true
+        }));
     }
     for l in [" x", "X", "é", "Tt"] {
         d.push(dev(format!("Kk.serialize={:?}", l), &["ser"], move |s| {
@@ -142,7 +165,7 @@ pub fn programs(tier: Tier) -> ProgramSet {
     }
     let mut exm = std::collections::BTreeMap::new();
     exm.insert("no default/transparent variant, or overlapping spellings".to_string(), ex as u64);
-    ProgramSet { programs: finish(out), excluded: exm, bounds: json!({"N_base": 2, "k_max": k, "inner_types": ["String", "Box<str>", "&'static str", "i32", "f64", "nested derived enum"], "grid": "as C17"}) }
+    ProgramSet { programs: finish(out), excluded: exm, bounds: json!({"N_base": 2, "k_max": k, "inner_types": ["String", "Box<str>", "user type with From<&str> only", "&'static str", "i32", "f64", "nested derived enum", "the enum's own type parameter (where-clause bounds)"], "grid": "as C17"}) }
 }
 
 fn transparent_inner(spec: &EnumSpec) -> Option<FieldTy> {
@@ -160,6 +183,7 @@ pub fn render(spec: &EnumSpec) -> String {
         None => (true, true),
         Some(FieldTy::Str) => (true, false),
         Some(FieldTy::SStr) => (true, true),
+        Some(FieldTy::Raw(n, _)) if n == "S" => (true, false),
         Some(FieldTy::Raw(n, _)) if n == "Nested" => (true, true),
         _ => (false, false),
     };
@@ -201,7 +225,10 @@ pub fn render(spec: &EnumSpec) -> String {
     }
     body.push_str("    let mut rt = |s: &str| vf_core::guard(|| <EC as core::str::FromStr>::from_str(s).ok().map(|v| v.to_string()));\n");
     body.push_str("    vf_core::props::c11::explore(ctx, &mut from_str, &mut try_from, &mut rt, tobs);");
-    let nested = "#[derive(Debug, Clone, PartialEq, Default, strum::Display, strum::AsRefStr, strum::IntoStaticStr, strum::EnumString)]\npub enum Nested { #[default] Violet, #[strum(to_string = \"fu chsia é\")] Fuchsia }\n";
+    let nested = "#[derive(Debug, Clone, PartialEq, Default, strum::Display, strum::AsRefStr, strum::IntoStaticStr, strum::EnumString)]\npub enum Nested { #[default] Violet, #[strum(to_string = \"fu chsia é\")] Fuchsia }\n\
+#[derive(Clone, PartialEq)]\npub struct Ofs(String);\nimpl From<&str> for Ofs { fn from(s: &str) -> Ofs { Ofs(s.to_string()) } }\n\
+impl core::fmt::Debug for Ofs { fn fmt(&self, f: &mut core::fmt::Formatter<'_>) -> core::fmt::Result { core::fmt::Debug::fmt(&self.0, f) } }\n\
+impl core::fmt::Display for Ofs { fn fmt(&self, f: &mut core::fmt::Formatter<'_>) -> core::fmt::Result { core::fmt::Display::fmt(&self.0, f) } }\n";
     format!("{}{}", nested, render_parse_module(spec, &derives, &body))
 }
 
